@@ -79,11 +79,29 @@ def value_of(e):
 def params_case(draw):
     table = draw(gen.tables(max_cols=4, max_rows=5))
     other = draw(gen.tables(name='u', max_cols=2, max_rows=4, types=gen.KEYTYPES))
-    kind = draw(st.sampled_from(['plain', 'plain', 'agg', 'subq', 'in', 'twin']))
+    kind = draw(st.sampled_from(['plain', 'plain', 'agg', 'subq', 'in', 'twin', 'scale']))
+    if kind == 'scale':
+        # equal decimals of different scale are different values to functions whose result shows the scale: every
+        # occurrence (constant, parameter, row) is evaluated for itself
+        from decimal import Decimal as D_
+        vals = draw(st.permutations([D_('12.5'), D_('12.50'), D_('-12.500'), D_('12.5'), D_('0.0'), D_('0'), D_('-0.00')]))
+        table = {'name': 't', 'cols': [('rid', 'int'), ('d', 'decimal')], 'rows': [(i, v) for i, v in enumerate(vals[:5])]}
+        cs = draw(st.permutations([D_('1.50'), D_('1.5'), D_('1.500'), D_('2.0'), D_('2'), D_('2.00')]))[:4]
+        fns = draw(st.lists(st.sampled_from(['str', 'abs', 'strabs', 'neg']), min_size=2, max_size=3))
+        mk = {'str': lambda e: ['fn', 'str', [e]], 'abs': lambda e: ['fn', 'abs', [e]], 'strabs': lambda e: ['fn', 'str', [['fn', 'abs', [e]]]],
+              'neg': lambda e: ['fn', 'str', [['neg', e]]]}
+        tl = [(['col', 'rid'], None)]
+        for i, c in enumerate(cs):
+            tl.append((mk[fns[i % len(fns)]](['const', 'decimal', c]), f'k{i}'))
+        for i, f in enumerate(fns):
+            tl.append((mk[f](['col', 'd']), f'r{i}'))
+        sel = bql.select(tl, ('table', 't'), where=draw(st.sampled_from([None, ['ne', ['fn', 'str', [['col', 'd']]], ['const', 'str', '12.5']]])))
     numeric = [n for n, t in table['cols'] if t in ('int', 'decimal') and n != 'rid']
     if kind == 'twin' and not numeric:
         kind = 'plain'
-    if kind == 'twin':
+    if kind == 'scale':
+        pass
+    elif kind == 'twin':
         # one expression shape written twice - as an un-aliased target and as ORDER BY / GROUP BY key - holding different
         # constants at the two places: the placeholders bind per occurrence, not per expression text
         x = ['col', draw(st.sampled_from(numeric))]
